@@ -48,6 +48,10 @@ class MetaString(type):
     def _inspect_args(cls, string_or_int):
         if cls._size is None:
             if isinstance(string_or_int, int):
+                if string_or_int < 0:
+                    raise ValueError(
+                        f"String: negative capacity {string_or_int}"
+                    )
                 return Info(size=string_or_int + 8)
             elif isinstance(string_or_int, str):
                 data = bytes(string_or_int, "utf8")
